@@ -57,6 +57,8 @@ def litem(ex, v, idx):
     comps = et.comps()
     arrs = larrs(ex, v)
     vals = [Val(ct, _sel(a, idx)) for a, ct in zip(arrs, comps)]
+    if v.meta.get("elem_nonneg"):
+        vals[0].meta["nonneg"] = True
     return vtuple(vals) if et.kind == "tuple" else vals[0]
 
 
@@ -84,14 +86,32 @@ def as_list(ex, v, fr, node=None):
         return v
     if k == "range":
         lo, hi = v.meta["lo"], v.meta["hi"]
+        if "step" in v.meta:
+            raise Unsupported("range with a step as a sequence")
         j = z3.Int("j")
-        n = z3.If(hi - lo > 0, hi - lo, 0)
-        return vlist(Ty("int"), n, [z3.Lambda([j], lo + j)])
+        if z3.is_int_value(lo) and lo.as_long() == 0 and _nonneg(hi):
+            n = hi
+        else:
+            n = z3.If(hi - lo > 0, hi - lo, 0)
+        return vlist(Ty("int"), n, [z3.Lambda([j], z3.simplify(lo + j))], elem_nonneg=_nonneg(lo))
     if k == "tuple" and v.items is not None:
         raise Unsupported("iteration over a tuple")
     if k == "dict":
         return dict_keys(ex, v)
     raise Unsupported(f"iteration over {v.ty} at {src.loc(fr.fi, node) if node is not None else ''}")
+
+
+def _nonneg(t):
+    """syntactically non-negative integer terms (list lengths, literals, their sums)"""
+    t = z3.simplify(t)
+    if z3.is_int_value(t):
+        return t.as_long() >= 0
+    if z3.is_select(t):
+        a = t.arg(0)
+        return z3.is_const(a) and a.decl().name().startswith("H_$len")
+    if z3.is_add(t):
+        return all(_nonneg(c) for c in t.children())
+    return False
 
 
 def iter_seq(ex, it, fr, node):
@@ -362,7 +382,7 @@ def has_method(v, m):
 
 def compare(ex, op, a, b, fr, node):
     from . import npmodels
-    if fr.spec and op in ("Eq", "NotEq") and a.ty.kind in ("arr", "none") and b.ty.kind in ("arr", "none"):
+    if fr.spec and op in ("Eq", "NotEq") and (a.ty.is_heap or a.ty.kind == "none") and (b.ty.is_heap or b.ty.kind == "none"):
         from .speceval import same_term
         t = same_term(ex, a, b)
         return vbool(t if op == "Eq" else z3.Not(t))
@@ -484,9 +504,13 @@ def lit_of(t):
 
 
 # ---------------------------------------------------------------------------------------------
-def norm_index(ex, n, iv, node):
+def norm_index(ex, n, iv, node, spec=False):
     """python index -> 0-based (negative constants count from the end)"""
     t = iv.t
+    if spec and not z3.is_int_value(t) and not (isinstance(node, ast.UnaryOp) and isinstance(node.op, ast.USub)):
+        return t          # specifications index with non-negative terms
+    if iv.meta.get("nonneg") or _nonneg(t):
+        return t
     if z3.is_int_value(t):
         c = t.as_long()
         return n + c if c < 0 else t
@@ -528,7 +552,7 @@ def subscript(ex, v, sl, fr, node):
         iv = ex.ev(sl, fr)
         if iv.ty.kind == "arr":
             return npmodels.list_index_by_array(ex, v, iv, fr, node)
-        idx = norm_index(ex, n, ex.coerce(iv, "int"), sl)
+        idx = norm_index(ex, n, ex.coerce(iv, "int"), sl, spec=fr.spec)
         if not fr.spec:
             ex.assume(z3.And(0 <= idx, idx < n))       # IndexError otherwise: exceptional path
         el = litem(ex, v, idx)
@@ -690,6 +714,11 @@ def builtin_max(ex, lst, fr, node, which="max", default=None, key=None):
     under the assumption that `>` is a strict weak order (DESIGN 4.2)."""
     n = llen(ex, lst)
     et = lst.ty.args[0]
+    if ex.under_binder(fr):
+        raise Unsupported(f"{which}() under a binder: give the enclosing accessor a heapfn contract")
+    if not fr.spec:
+        ex.oblige("call-pre", f"{which}_elements_comparable", z3.BoolVal(True), (), "", "")
+        ex.obls.pop()
     cmp = gt_fn(ex, et, fr, node, key) if which == "max" else lt_fn(ex, et, fr, node, key)
     kx = ex.fresh(f"{which}_idx", INT)
     if not fr.spec:
@@ -698,8 +727,12 @@ def builtin_max(ex, lst, fr, node, which="max", default=None, key=None):
     i = z3.Const(f"i?{next(ex.cnt)}", INT)
     ei = litem(ex, lst, i)
     savedpc = len(ex.pc)
-    body1 = cmp(ei, res)
-    body2 = cmp(res, ei)
+    ex.binder_depth = getattr(ex, "binder_depth", 0) + 1
+    try:
+        body1 = cmp(ei, res)
+        body2 = cmp(res, ei)
+    finally:
+        ex.binder_depth -= 1
     del ex.pc[savedpc:]
     facts = z3.And(
         0 <= kx, kx < n,
@@ -718,6 +751,8 @@ def builtin_max(ex, lst, fr, node, which="max", default=None, key=None):
 def builtin_sorted(ex, lst, fr, node, reverse=False, key=None):
     n = llen(ex, lst)
     et = lst.ty.args[0]
+    if ex.under_binder(fr):
+        raise Unsupported("sorted() under a binder")
     lt = lt_fn(ex, et, fr, node, key)
     p = ex.fresh_fn("perm", INT, INT)
     pinv = ex.fresh_fn("pinv", INT, INT)
@@ -727,7 +762,11 @@ def builtin_sorted(ex, lst, fr, node, reverse=False, key=None):
     a, b = z3.Const(f"a?{next(ex.cnt)}", INT), z3.Const(f"b?{next(ex.cnt)}", INT)
     ea, eb = litem(ex, res, a), litem(ex, res, b)
     savedpc = len(ex.pc)
-    lt_ab, lt_ba = lt(ea, eb), lt(eb, ea)
+    ex.binder_depth = getattr(ex, "binder_depth", 0) + 1
+    try:
+        lt_ab, lt_ba = lt(ea, eb), lt(eb, ea)
+    finally:
+        ex.binder_depth -= 1
     del ex.pc[savedpc:]
     inr = lambda x: z3.And(0 <= x, x < n)
     ex.assume(z3.ForAll([a], z3.Implies(inr(a), z3.And(inr(p(a)), pinv(p(a)) == a)), patterns=[p(a)]))
@@ -851,7 +890,7 @@ def _enumerate(ex, fv_, args, kwargs, fr, node):
     j = z3.Int("j")
     et = lst.ty.args[0]
     return vlist(Ty("tuple", args=[Ty("int")] + et.comps()) if et.kind == "tuple" else Ty("tuple", args=[Ty("int"), et]),
-                 n, [z3.Lambda([j], j)] + larrs(ex, lst))
+                 n, [z3.Lambda([j], j)] + larrs(ex, lst), elem_nonneg=True)
 
 
 @handler("zip")
